@@ -5656,8 +5656,8 @@ def merge_parts(parts, reassign="voice"):
         np.unique(
             [
                 e.staff if e.staff is not None else 1
-                for e in part.iter_all()
-                if isinstance(e, (GenericNote, Words, Direction, Clef))
+                for cls in (GenericNote, Words, Direction, Clef)
+                for e in part.iter_all(cls, include_subclasses=True)
             ]
         ).astype(int)
         for part in parts
